@@ -61,6 +61,10 @@ type Fault struct {
 	// block is about to record (learnt from a shadow processor that processed the block first). The unchanged code answers
 	// not-found; what matters is that the same questions are answered correctly once the block is committed.
 	Read bool `json:"read,omitempty"`
+	// RB: the failing statement raises ROLLBACK instead of ABORT: SQLite rolls the whole transaction back itself, the code's own
+	// tx.Rollback() then reports an error and db.Tx.Rollback returns BEFORE the rollback callbacks (the tree keeps its advanced
+	// in-memory frontier). Same database as after an ordinary fault; the retry on the same instance must still get it right.
+	RB bool `json:"rb,omitempty"`
 	// Hide: the node table of the exit tree is unavailable while this block is attempted (renamed away and back): every READ
 	// of it fails as well (the cache rebuild of the append-only tree walks it), not only the inserts. Only used on blocks with
 	// at least one deposit (a block without deposits does not touch the table and would succeed).
@@ -209,13 +213,17 @@ func installFault(db *sql.DB, f *Fault) {
 	if f.Table == "rht" {
 		k = 32*f.K + 5 // one AddLeaf attempts 32 rht inserts; fail in the middle of the k-th leaf's inserts
 	}
+	how := "ABORT"
+	if f.RB {
+		how = "ROLLBACK"
+	}
 	stmts := []string{
 		`DROP TABLE IF EXISTS verif_cnt`,
 		`CREATE TABLE verif_cnt (n INTEGER)`,
 		`INSERT INTO verif_cnt VALUES (0)`,
 		fmt.Sprintf(`CREATE TRIGGER verif_fault BEFORE INSERT ON %s BEGIN
-			SELECT RAISE(ABORT, 'verif fault') WHERE (SELECT n FROM verif_cnt) = %d;
-			UPDATE verif_cnt SET n = n + 1; END`, tbl, k),
+			SELECT RAISE(%s, 'verif fault') WHERE (SELECT n FROM verif_cnt) = %d;
+			UPDATE verif_cnt SET n = n + 1; END`, tbl, how, k),
 	}
 	for _, s := range stmts {
 		if _, err := db.Exec(s); err != nil {
